@@ -220,7 +220,10 @@ func lastLines(s string, n int) string {
 var (
 	metricProblem = regexp.MustCompile(`(?m)^pint_problem\{([^}]*)\} `)
 	metricLabel   = regexp.MustCompile(`(\w+)="((?:[^"\\]|\\.)*)"`)
-	metricDone    = regexp.MustCompile(`(?m)^pint_last_run_time_seconds [1-9]`)
+	// pint_problems is emitted by the problem collector itself, under the same lock and in the same scrape as
+	// the pint_problem series, and only once the first scan's summary has been stored.  (pint_last_run_time_seconds
+	// is set a little earlier, before the summary is stored: polling for it races with the scan's last step.)
+	metricDone = regexp.MustCompile(`(?m)^pint_problems [0-9]`)
 )
 
 func runWatch(bin, dir string, c BinCase) (observed, error) {
@@ -332,6 +335,47 @@ func runBinCommand(bin string, c BinCase, command string) (observed, error) {
 	return nil, fmt.Errorf("%w: unknown command %q", errBinInconclusive, command)
 }
 
+func binState(command string) discovery.ChangeType {
+	if command == "ci" {
+		return discovery.Added
+	}
+	return discovery.Noop
+}
+
+func binRuleData(r BinRule) ruleData {
+	rd := ruleData{Alert: r.Alert, Name: r.Name}
+	if r.Alert {
+		rd.For = "1m"
+	}
+	return rd
+}
+
+func binDisagrees(c BinCase, command string, obs observed) bool {
+	for ri, r := range c.Rules {
+		for _, b := range c.Blocks {
+			if !binObservable(b.Marker, r) {
+				continue
+			}
+			want := refApplied(b.Sel, binRuleData(r), env{path: "rules/1.yml", cmd: command, state: binState(command)})
+			if obs[ri][binMarkerReporter[b.Marker]] != want {
+				return true
+			}
+		}
+	}
+	return false
+}
+
+func sameObserved(a, b observed, n int) bool {
+	for i := 0; i < n; i++ {
+		for _, rep := range binMarkerReporter {
+			if a[i][rep] != b[i][rep] {
+				return false
+			}
+		}
+	}
+	return true
+}
+
 type binOutcome struct {
 	selected, rejected int
 	ran                []string
@@ -350,16 +394,19 @@ func runBin(bin string, c BinCase) (out binOutcome, err error) {
 			out.inconclusive = append(out.inconclusive, command+": "+rerr.Error())
 			continue
 		}
-		out.ran = append(out.ran, command)
-		st := discovery.Noop
-		if command == "ci" {
-			st = discovery.Added
-		}
-		for ri, r := range c.Rules {
-			rd := ruleData{Alert: r.Alert, Name: r.Name}
-			if r.Alert {
-				rd.For = "1m"
+		// A disagreement must be reproducible: the command is run a second time and only an
+		// observation made twice counts; two different observations are inconclusive.
+		if binDisagrees(c, command, obs) {
+			obs2, rerr2 := runBinCommand(bin, c, command)
+			if rerr2 != nil || !sameObserved(obs, obs2, len(c.Rules)) {
+				out.inconclusive = append(out.inconclusive, command+": unstable observation")
+				continue
 			}
+		}
+		out.ran = append(out.ran, command)
+		st := binState(command)
+		for ri, r := range c.Rules {
+			rd := binRuleData(r)
 			for bi, b := range c.Blocks {
 				if !binObservable(b.Marker, r) {
 					continue
